@@ -274,6 +274,33 @@ def m_range(I, path, args, kwargs):
     raise Unsupported("range with symbolic bounds")
 
 
+def m_next(I, path, args, kwargs):
+    """next(filtered generator, default): exact characterisation through a Skolem index."""
+    from .expr import FilteredGen
+    from .ground import Q
+    it = args[0]
+    if isinstance(it, FilteredGen):
+        n = _len_term(it.src.length)
+        found = path.fresh("next_found", z3.BoolSort())
+        if path.branch(found):
+            m = path.fresh("next_ix", IntS)
+            path.assume(z3.And(m >= 0, m < n, it.pred(SInt(m), path)))
+            path.assume(Q([IntS], lambda j: z3.Implies(z3.And(j >= 0, j < m), z3.Not(it.pred(SInt(j), path))),
+                          name="next-is-first"))
+            return it.elt(SInt(m), path)
+        path.assume(Q([IntS], lambda j: z3.Implies(z3.And(j >= 0, j < n), z3.Not(it.pred(SInt(j), path))),
+                      name="next-none-satisfies"))
+        if len(args) > 1:
+            return args[1]
+        raise PyRaise(StopIteration)
+    h = I.hooks.get("next")
+    if h is not None:
+        return h(I, path, args, kwargs)
+    if _is_sym(it):
+        raise Unsupported(f"next({it!r})")
+    return _MISSING
+
+
 def m_identity_decorator(I, path, args, kwargs):
     if len(args) == 1 and isinstance(args[0], (Closure, ClassVal, Stub)) and not kwargs:
         return args[0]
@@ -299,7 +326,7 @@ def install(I: Interp):
         B.len: m_len, B.isinstance: m_isinstance, B.issubclass: m_issubclass, B.enumerate: m_enumerate,
         B.zip: m_zip, B.tuple: m_tuple, B.list: m_list, B.type: m_type, B.bool: m_bool, B.any: m_any,
         B.all: m_all, B.getattr: m_getattr, B.hasattr: m_hasattr, B.dict: m_dict, B.set: m_set,
-        B.range: m_range, typing.cast: m_cast, B.repr: m_repr,
+        B.range: m_range, typing.cast: m_cast, B.repr: m_repr, B.next: m_next,
         ft.cache: m_identity_decorator, ft.lru_cache: m_identity_decorator, ft.wraps: None,
         dataclasses.dataclass: m_identity_decorator,
     }
